@@ -1,9 +1,9 @@
 #!/bin/bash
-# usage: tools/seedtest.sh <seed-dir-name> <check-id> [tier]
+# usage: tools/seedtest.sh <seed-dir-name> <check-id> [tier [extra ./check arguments]]
 # Runs a check against a scratch worktree of /repo with seeded/<name>/patch.diff applied (the
 # worktree lives under $TMPDIR and is removed afterwards); evidence and replays of that run go to a
 # scratch directory, /repo and /verif/evidence are not touched.
-name="$1"; id="$2"; tier="${3:-quick}"
+name="$1"; id="$2"; tier="${3:-quick}"; shift; shift; shift 2>/dev/null  # further arguments go to ./check (e.g. -only Harness)
 cd /verif
 tmp="${TMPDIR:-/tmp}/gunyu-seedtest-$$"
 wt="$tmp/repo"; out="$tmp/out"
@@ -14,7 +14,7 @@ if ! git -C "$wt" apply "/verif/seeded/$name/patch.diff"; then
   echo "patch does not apply"; git -C /repo worktree remove --force "$wt"; rm -rf "$tmp"; exit 9
 fi
 s=$(date +%s)
-VERIF_REPO="$wt" VERIF_OUT="$out" ./check "$id" --tier "$tier" > "/tmp/seed_${name}_${id}.log" 2>&1
+VERIF_REPO="$wt" VERIF_OUT="$out" ./check "$id" --tier "$tier" "$@" > "/tmp/seed_${name}_${id}.log" 2>&1
 rc=$?
 e=$(date +%s)
 echo "seed=$name check=$id tier=$tier exit=$rc time=$((e-s))s"
